@@ -124,6 +124,7 @@ type interpreter struct {
 	symClock     bool
 	clockN       int
 	phaseADepth  int
+	phaseAPkgs   map[*ssa.Package]int
 	pendingInits []pendingInit
 }
 
